@@ -3,18 +3,53 @@ package c17remap
 import (
 	"encoding/binary"
 	"math"
+	"os"
+	"strings"
+	"syscall"
 	"testing"
 
 	"verifharness/vkit"
 )
 
-func TestMain(m *testing.M) { vkit.Main(m) }
+// TestMain: the race detector's runtime sleeps atexit_sleep_ms (default 1 s)
+// before every exit of a -race binary - also after a mere -test.list - "to let
+// other goroutines report". Every goroutine of this package is joined before
+// its case ends, so the sleep buys nothing here and costs the driver two
+// seconds per quick run; the -race binary therefore replaces itself once with
+// GORACE extended by atexit_sleep_ms=0 (a caller that sets the option itself
+// is left alone; if the exec is not possible the binary just runs as it is).
+func TestMain(m *testing.M) {
+	if raceEnabled && !strings.Contains(os.Getenv("GORACE"), "atexit_sleep_ms") {
+		if exe, err := os.Executable(); err == nil {
+			var env []string
+			for _, e := range os.Environ() {
+				if !strings.HasPrefix(e, "GORACE=") {
+					env = append(env, e)
+				}
+			}
+			env = append(env, "GORACE="+strings.TrimSpace(os.Getenv("GORACE")+" atexit_sleep_ms=0"))
+			_ = syscall.Exec(exe, os.Args, env)
+		}
+	}
+	vkit.Main(m)
+}
 
 func TestProp_Index(t *testing.T)       { PartIndex.Run(t) }
 func TestProp_Search(t *testing.T)      { PartSearch.Run(t) }
 func TestProp_WideMap(t *testing.T)     { PartMap.Run(t) }
 func TestProp_WideLRU(t *testing.T)     { PartLRU.Run(t) }
 func TestProp_TinyWideLRU(t *testing.T) { PartTiny.Run(t) }
+func TestProp_WideMapConc(t *testing.T) { PartConc.Run(t) }
+func TestProp_Locks(t *testing.T)       { PartLock.Run(t) }
+
+// TestRace_WideMapConc is part widemap-conc in the -race binary (the driver
+// runs TestRace_* only from there); VERIF_RACE=1 forces it in a plain binary.
+func TestRace_WideMapConc(t *testing.T) {
+	if !raceEnabled && os.Getenv("VERIF_RACE") == "" {
+		t.Skip("runs from the -race binary")
+	}
+	PartConcRace.Run(t)
+}
 
 // TestEnum_Grid runs the boundary grid completely (complete for the grid, not
 // for the property's domain, hence exhaustive=false).
@@ -27,6 +62,9 @@ func TestReplay(t *testing.T) {
 	PartMap.Replay(t, 1)
 	PartLRU.Replay(t, 1)
 	PartTiny.Replay(t, 1)
+	PartLock.Replay(t, 1)
+	PartConc.Replay(t, 200)
+	PartConcRace.Replay(t, 200)
 }
 
 // FuzzRoute is the raw entry: a shard count, a raw hash and arbitrary key
